@@ -1,7 +1,150 @@
-//! C18 — not built yet.
-use crate::report::Tier;
+//! C18 — vector search returns real, correctly scored, correctly ordered neighbours.
+//!
+//! Monitors (all judged against f64 scalar definitions written here, `c18_ref.rs`):
+//!  (a) HNSW history monitor: random histories of insert / re-insert / remove / search / batch
+//!      search on `HnswIndex`; after every search: <= k results, distinct ids, every id
+//!      currently present, every distance == the definition within a sound bound,
+//!      non-decreasing order, and — where justified — exactly min(k, len) results / the true
+//!      k nearest.
+//!  (b) `brute_force_knn` (+ filtered, `batch_distances`) == true k nearest (multiset).
+//!  (c) kernel differential: every public function of `distance.rs` over dims 1..=67,128,385.
+//!  (d) quantisers (scalar / binary / product) and `QuantizedHnswIndex` histories.
+//!  (e) batch search == one-by-one; `GrafeoDB::create_vector_index` / `vector_search` /
+//!      `batch_vector_search` end to end.
+//!
+//! Rule for the clause "returns k whenever >= k vectors are reachable" (decided after
+//! reading `HnswIndex::search_layer`): the layer-0 beam only stops early once it holds `ef`
+//! results (`results.len() >= ef` is part of the break condition), so a result shorter than
+//! min(k, len) means the links reachable from the entry point were exhausted. Without a
+//! hook the graph is not observable, so reachability has to be argued from the public API:
+//! the clause is demanded iff the history so far consists of inserts of distinct ids only
+//! (no remove, no re-insert) and len <= m_max + 1. Then no neighbour list can have exceeded
+//! m_max (pruning — the only thing that makes a link one-directional — never ran), every
+//! insert attached the new node by at least one bidirectional layer-0 link to a node found
+//! from the entry point, hence layer 0 is connected and the beam must deliver min(k, len).
+//! If additionally max(ef, k) >= len the beam visits every node, so the result must be the
+//! true k nearest (multiset of distances). Everywhere else the clause is skipped and counted
+//! (`*.length_clause_skipped.*`, `*.short_result_where_not_demanded.*`).
 
-pub fn run(_tier: Tier, _seed: u64) -> ! {
-    println!("INCONCLUSIVE property=C18 reason=monitor not built yet");
-    std::process::exit(2)
+#[path = "c18_ref.rs"]
+mod refs;
+#[path = "c18_kernel.rs"]
+mod kernel;
+#[path = "c18_quant.rs"]
+mod quant;
+#[path = "c18_index.rs"]
+mod index;
+#[path = "c18_engine.rs"]
+mod engine;
+
+use crate::report::{Report, Tier};
+use refs::Acc;
+use serde_json::json;
+
+/// Run `n` independent cases on worker threads; results are merged in case order so that
+/// the report does not depend on scheduling.
+fn par_cases(rep: &mut Report, n: u64, f: impl Fn(&mut Acc, u64) + Sync) {
+    let threads = std::thread::available_parallelism().map(|x| x.get()).unwrap_or(4).min(16) as u64;
+    let next = std::sync::atomic::AtomicU64::new(0);
+    let mut all: Vec<(u64, Acc)> = std::thread::scope(|s| {
+        let hs: Vec<_> = (0..threads)
+            .map(|_| {
+                s.spawn(|| {
+                    let mut out = Vec::new();
+                    loop {
+                        let i = next.fetch_add(1, std::sync::atomic::Ordering::Relaxed);
+                        if i >= n {
+                            break;
+                        }
+                        let mut acc = Acc::default();
+                        // a panic that escaped the per-call catch: inside the engine (a call the
+                        // monitor does not expect to panic) it is a deviation, inside the
+                        // harness it makes the run inconclusive - never silent
+                        if let Err(p) = crate::util::catch(|| f(&mut acc, i)) {
+                            if p.site.starts_with("crates/") {
+                                acc.dev(&format!("uncaught_panic@{}", p.site), || json!({"at": p.at, "msg": p.msg, "case": i}));
+                            } else {
+                                acc.inconclusive.push(format!("harness panic in case {i} at {}: {}", p.at, p.msg));
+                            }
+                        }
+                        out.push((i, acc));
+                    }
+                    out
+                })
+            })
+            .collect();
+        hs.into_iter().flat_map(|h| h.join().expect("worker")).collect()
+    });
+    all.sort_by_key(|x| x.0);
+    for (_, a) in all {
+        a.merge_into(rep);
+    }
+}
+
+pub fn run(tier: Tier, seed: u64) -> ! {
+    let mut rep = Report::new("C18", tier, seed, "exploration");
+    rep.max_samples = 12;
+    rep.rule = "directed (seed-independent) matrices: every public distance kernel x dims 1..=67,128,385 x 11 magnitude kinds x 5 relations \
+        (equal/opposite/scaled/independent/mixed kinds), and small insert-only HNSW indexes x 4 metrics x 12 dims x k,ef in {0,1,2,len-1,len,len+5}; \
+        random (seeded): kernel pairs, brute-force cases, quantiser trainings, HNSW and QuantizedHnswIndex histories (2..600 ops of insert / re-insert / \
+        remove / search / batch, zero / duplicate / 1e+-30 / small-norm vectors, m in {2,3,4,8,16}), engine cases. non-trivial = history with >= 2 inserts \
+        and >= 1 search, kernel pair of non-zero vectors with dim > 1, exact-search case with n >= 2 and k >= 1, quantiser trained on >= 2 vectors; \
+        distinct by generator coordinates".into();
+    rep.extra.insert("simd_support".into(), json!(grafeo_core::index::vector::simd_support()));
+    rep.extra.insert("profile".into(), json!(if cfg!(debug_assertions) { "dev" } else { "release" }));
+
+    let mut marks: Vec<(String, f64)> = Vec::new();
+    macro_rules! mark {
+        ($n:expr) => {
+            marks.push(($n.to_string(), rep.elapsed()));
+        };
+    }
+    // (c) kernels
+    let mut a = Acc::default();
+    kernel::kernel_matrix(&mut a);
+    a.merge_into(&mut rep);
+    let chunks: u64 = tier.pick(64, 2000);
+    let per_chunk: usize = tier.pick(3125, 5000);
+    par_cases(&mut rep, chunks, |acc, c| kernel::kernel_random(acc, seed, c, per_chunk));
+
+    mark!("kernels");
+    // (b) exact search
+    par_cases(&mut rep, tier.pick(5000, 100_000), |acc, c| kernel::brute_case(acc, seed, c));
+
+    mark!("brute_force");
+    // (d) quantisers
+    par_cases(&mut rep, tier.pick(2000, 60_000), |acc, c| quant::scalar_case(acc, seed, c));
+    par_cases(&mut rep, tier.pick(3000, 200_000), |acc, c| quant::binary_case(acc, seed, c));
+    par_cases(&mut rep, tier.pick(600, 20_000), |acc, c| quant::product_case(acc, seed, c, tier == Tier::Thorough || c % 10 == 0));
+
+    mark!("quantisers");
+    // (a) HNSW histories, directed then random; (d)/(e) quantised index histories
+    let mut a = Acc::default();
+    index::directed_small(&mut a);
+    index::reinsert_probe(&mut a);
+    a.merge_into(&mut rep);
+    let long = tier == Tier::Thorough;
+    par_cases(&mut rep, tier.pick(20_000, 300_000), |acc, c| index::history_case(acc, seed, c, false, long || c % 8 == 0));
+    par_cases(&mut rep, tier.pick(8000, 120_000), |acc, c| index::history_case(acc, seed, c, true, long || c % 8 == 0));
+
+    mark!("index_histories");
+    // (e) engine
+    par_cases(&mut rep, tier.pick(1500, 20_000), |acc, c| engine::engine_case(acc, seed, c));
+
+    mark!("engine");
+    // informational only (never part of a verdict)
+    rep.extra.insert("elapsed_s_after_section".into(), json!(marks));
+    rep.assumptions = vec![
+        "error bound of an f32 kernel of length n against the f64 definition: 4*gamma_(n+4)*S + 1e-6, gamma_n = n*2^-24/(1-n*2^-24), S = sum of |terms| (dot: sum|a_i b_i|; \
+         euclidean / manhattan: the result itself, all terms being non-negative; cosine: sum|a_i b_i|/(|a||b|) + 1). Demanded only where the f32 error model holds: all inputs finite, \
+         no exact intermediate above 1e37, for cosine both squared norms in [1e-30, 1e37] and non-zero; everything else only has to return without panicking (counted as *_no_panic_only)".into(),
+        "the clause 'returns k whenever >= k reachable' is demanded only for insert-only histories of distinct ids with len <= m_max+1 (rule in the module header); exactness additionally needs max(ef,k) >= len".into(),
+        "no numeric error bound is documented for any quantiser: scalar is held to one quantisation step per component inside the trained range (256 levels) and the triangle inequality, \
+         binary and product to their documented definitions, cosine_distance_u8 and binary search without rescoring to sanity only; rank correlation is not demanded".into(),
+        "QuantizedHnswIndex with product quantisation and rescoring chooses its k by the PQ estimate (documented): exactness is not demanded there".into(),
+        "GrafeoDB builds its index with an OS-seeded level generator: engine cases are judged by clauses that hold for every level assignment".into(),
+        "documented panics are respected: equal lengths for kernels, query/vector dimension == index dimension, product quantiser dims divisible by num_subvectors, 1 <= num_centroids <= 256, m >= 2".into(),
+        "not covered here: zone_map.rs and storage.rs are not on any search path of the crate (no caller of VectorZoneMap / VectorStorage outside their own files)".into(),
+    ];
+    rep.finish()
 }
